@@ -84,13 +84,15 @@ def case_strategy(draw):
             decls.append({"name": f"c{n}", "owner": ci, "kind": kind,
                           "fmt": fmt_for(kind)})
             n += 1
-    use_dict = draw(st.integers(0, 3)) == 0
+    use_dict = draw(st.integers(0, 1)) == 0
     dspec = None
     if use_dict:
         dspec = {"key": [draw(st.sampled_from("IH")) for _ in
                          range(draw(st.integers(1, 2)))],
-                 "value": [draw(st.sampled_from("IQH")) for _ in
-                           range(draw(st.integers(1, 2)))]}
+                 "value": [draw(st.sampled_from("IQHB")) for _ in
+                           range(draw(st.integers(1, 3)))]}
+        for part in dspec.values():         # packed: no holes
+            part.sort(key=lambda f: -dsl.SIZES[f])
     # variable instances
     inst = []
     for d in decls:
@@ -114,7 +116,9 @@ def case_strategy(draw):
     for _ in range(draw(st.integers(5, 25))):
         k = draw(st.sampled_from(["const", "const", "copy", "copy", "expr",
                                   "deep", "abs", "ktime", "prandom", "bitcmp",
-                                  "hstore", "dset", "dget", "bitconst"]))
+                                  "hstore", "dset", "dget", "bitconst"]
+                                 + (["dset", "dget", "dget"] if dspec
+                                    else [])))
         tgt = draw(st.sampled_from(ints))
         if k == "const":
             stmts.append(["const", tgt, draw(st.integers(-5, 200))])
